@@ -194,7 +194,8 @@ func parseAsmFile(path string, overlay map[string][]byte) (map[string]*asmRoutin
 				}
 				o, err := parseAsmOperand(a, defs)
 				if err != nil {
-					return nil, fmt.Errorf("%s:%d: %v", filepath.Base(path), ln+1, err)
+					// only an error for the routine that executes it
+					o = asmOperand{kind: "bad", text: strings.TrimSpace(a)}
 				}
 				in.args = append(in.args, o)
 			}
